@@ -110,6 +110,17 @@ CHECKS["C19"] = {
     "design_ref": "§7 C19",
 }
 
+CHECKS["C08"] = {
+    "category": "model_checking",
+    "technique": "TLA+ BlockStore.tla checked by TLC; TLC trace validation (TraceStore.tla) of the real EngineManager + runner under a seeded driver with a driver-scheduled persistence layer",
+    "text": "Design: every interleaving of offers, pushes, hand-outs, durable completions, side-channel jumps, pruning and restarts. Code: every quiescent "
+            "observation (queued/persisted ranges, every readable block, the hand-out sequence, call results) is a TLC state checked for verified-only, "
+            "contiguity, read-back, no substitution, ordered gap-free hand-out and progress of the queue.",
+    "note": "Persistence layer = harness model (ordered, may lag/jump/prune); pre-genesis blocks; single-threaded runtime with quiescence between commands; "
+            "the gossip-level requested-number guard is out of reach of this check.",
+    "design_ref": "§7 C08",
+}
+
 NOT_YET = "check not built yet (construction in progress; see DESIGN.md §11 build order)"
 NA_REASONS = {}
 
